@@ -51,6 +51,11 @@ def bijection(w, h, d, bc, i):
 
 def coords_to_index(w, h, d, bc, x, y, z):
     g = grid(w, h, d, bc)
+    # a point inside the cell (fractional coordinates) is that cell, axis by axis, in every coordinate form
+    want = z * w * h + y * w + x
+    fr = (x + 0.5, y + 0.25, z + 0.75)
+    if g.get_cell_index(fr) != want or g.get_cell_index(list(fr)) != want or g.get_cell_index(Coord(*fr)) != want or not g.is_within_bounds(fr):
+        return False
     i = g.get_cell_index((x, y, z))
     return i == z * w * h + y * w + x and g.get_cell_coordinates(i) == (x, y, z) and g.is_within_bounds((x, y, z)) and g.is_within_bounds(i)
 
